@@ -1,7 +1,7 @@
 (* C20 model driver (stateful).  Words of a command line are separated by '\x1f'.  Input lines:
      T name min max            add a table entry
-     S clear | S cv n | S bias n c1 c2 ..     set the model state (object sets)
-     P text\x1fdecl\x1fdecl..  register what a configuration text defines; decl = "cv n" | "bias n c1 c2 .."
+     S clear | S cv n | S bias n c1 c2 .. | S nharm k    set the model state (object sets, number of harmonic blocks read so far)
+     P text\x1fdecl\x1fdecl..  register what a configuration text defines; decl = "cv n" | "bias n c1 c2 .." ; n = "-": a block without `name`
      P text\x1fnone            the text is not parseable (default for unregistered texts)
      F name\x1ftext            contents of a configuration file
      E w1\x1fw2...             one script call (exec): prints "<outcome> <bodyclass> | cvs | biases"
@@ -46,8 +46,8 @@ let read_file (t : Model.string) = match Hashtbl.find_opt file_tbl (ocaml_string
 
 let decl_of (s : Stdlib.String.t) : decl =
   match Stdlib.String.split_on_char ' ' s with
-  | "cv" :: [n] -> DCv (cs n)
-  | "bias" :: n :: l -> DBias (cs n, List.map cs l)
+  | "cv" :: [n] -> DCv (if n = "-" then None else Some (cs n))
+  | "bias" :: n :: l -> DBias ((if n = "-" then None else Some (cs n)), List.map cs l)
   | _ -> failwith ("bad decl " ^ s)
 
 let show_state st =
@@ -77,7 +77,7 @@ let show_q (q : float qresult) = match q with
   | QNames l -> "names " ^ Stdlib.String.concat " " (List.map ocaml_string_of l)
 
 let () =
-  let tbl = ref [] and st = ref { st_cvs = []; st_biases = [] } in
+  let tbl = ref [] and st = ref { st_cvs = []; st_biases = []; st_nharm = O } in
   let sem : float sem ref = ref { sm_objs = !st; sm_cv = []; sm_bias = []; sm_mod = None } in
   let ob_mod = ref None and ob_cv = ref [] and ob_bias = ref [] in
   let sync_objs () = sem := resync { sm_objs = !st; sm_cv = []; sm_bias = []; sm_mod = None } !st in
@@ -94,7 +94,9 @@ let () =
          | _ -> print_endline "?")
       | 'S' ->
         (match Stdlib.String.split_on_char ' ' rest with
-         | ["clear"] -> st := { st_cvs = []; st_biases = [] }; sync_objs (); print_endline "ok"
+         | ["clear"] -> st := { st_cvs = []; st_biases = []; st_nharm = O }; sync_objs (); print_endline "ok"
+         | ["nharm"; k] -> let rec nat_of i = if i <= 0 then O else S (nat_of (i - 1)) in
+           st := { !st with st_nharm = nat_of (int_of_string k) }; sync_objs (); print_endline "ok"
          | ["cv"; n] -> st := { !st with st_cvs = !st.st_cvs @ [cs n] }; sync_objs (); print_endline "ok"
          | "bias" :: n :: l -> st := { !st with st_biases = !st.st_biases @ [(cs n, List.map cs l)] }; sync_objs (); print_endline "ok"
          | _ -> print_endline "?")
@@ -127,7 +129,9 @@ let () =
         (* what the model says about the components after the step: flags, and the value as the sum over the enabled ones *)
         let comp = List.filter_map (fun (n, (c : float cvsem)) ->
             match c.cs_cvcs, c.cs_data with
-            | Some fl_, Some d when List.length fl_ = List.length d.cd_contrib ->
+            (* only for a variable that was computed at this step: the value of an inactive variable is whatever it was (possibly read
+               back from a state file with the precision of the text), not the sum of its components *)
+            | Some fl_, Some d when d.cd_active && List.length fl_ = List.length d.cd_contrib ->
               Some (Printf.sprintf "%s:%s:%s:%h" (ocaml_string_of n)
                       (Stdlib.String.concat "" (List.map (fun b -> if b then "1" else "0") fl_))
                       (match c.cs_pending with None -> "-" | Some p -> Stdlib.String.concat "" (List.map (fun b -> if b then "1" else "0") p))
